@@ -1,4 +1,156 @@
-import ShootVerif.Spec.Enum
+import ShootVerif.Proofs.EnumCodec
+/-!
+C12 — with -json, -text or -sql the enum marshals to its String() name and unmarshals only from a
+declared name: any other input returns an error and leaves the target unchanged, so
+decode(encode(c)) == c for every declared constant.  shoot.ParseEnum, TryParseEnum and IsEnum agree
+with the generated ValueMap() and Values() for every string and integer.
+
+`vmOf i` is the emitted `_t_value_map`, `tables i` the emitted constant table (model of str.go),
+`i.decl` the declared constants.  All theorems: every `WF` input, EVERY string `s : Name`, every
+target value, every integer of the type.  encoding/json is an external: a document is what
+`json.Unmarshal(data, &string)` makes of it (`JsonIn`), a SQL value is `[]byte` or not (`SqlIn`).
+-/
 namespace ShootVerif.Enum
-theorem C12_placeholder : True := trivial
+
+/-- ParseEnum succeeds with v exactly when (s, v) is an entry of ValueMap(), i.e. exactly when s is
+    the trimmed name of the declared constant with value v -/
+theorem C12_parse_iff (i : Input) (h : WF i = true) (s : Name) (v : Int) :
+    (parseEnum (vmOf i) s = some v ↔ (s, v) ∈ vmOf i) ∧
+    (parseEnum (vmOf i) s = some v ↔ ∃ c ∈ i.decl, trim i.T c.name = s ∧ c.val = v) := by
+  have h2 := (C04_maps_inverse i h s v).2
+  refine ⟨?_, h2⟩
+  unfold parseEnum vmOf at *
+  rw [h2]
+  unfold valueMap
+  rw [List.mem_map]
+  constructor
+  · rintro ⟨c, hc, hs, hv⟩
+    exact ⟨c, (tables_perm h).mem_iff.mpr hc, by rw [hs, hv]⟩
+  · rintro ⟨c, hc, he⟩
+    have := Prod.mk.inj he
+    exact ⟨c, (tables_perm h).mem_iff.mp hc, this.1, this.2⟩
+
+/-- ParseEnum is the specification's lookup among the declared constants -/
+theorem C12_parse (i : Input) (h : WF i = true) (s : Name) :
+    parseEnum (vmOf i) s = specParse i.T i.decl s := C04_valuemap i h s
+
+/-- TryParseEnum (any table, any string): the target is written only on success, and then with the
+    parsed value -/
+theorem C12_tryparse (vm : List (Name × Int)) (s : Name) (target : Int) :
+    ((tryParseEnum vm s target).1 = false → (tryParseEnum vm s target).2 = target ∧ parseEnum vm s = none) ∧
+    ((tryParseEnum vm s target).1 = true → parseEnum vm s = some (tryParseEnum vm s target).2) := by
+  unfold tryParseEnum
+  cases parseEnum vm s <;> simp
+
+theorem C12_tryparse_spec (i : Input) (h : WF i = true) (s : Name) (target : Int) :
+    tryParseEnum (vmOf i) s target = specDecode i.T i.decl (some s) target := by
+  unfold tryParseEnum specDecode
+  rw [C12_parse i h s]
+  simp only [specParse, Option.bind_some]
+  cases specValueOf i.T i.decl s <;> rfl
+
+/-- IsEnum, for every integer v of the type: true exactly when v is a declared value -/
+theorem C12_isenum_iff (i : Input) (h : WF i = true) (hb : 0 < i.kind.bits) (v : Int) (hv : i.kind.has v = true) :
+    isEnum i.kind (valuesT (tables i)) v = true ↔ ∃ c ∈ i.decl, c.val = v := by
+  unfold isEnum
+  rw [wrap_of_has i.kind hb v hv, List.any_eq_true]
+  unfold valuesT
+  constructor
+  · rintro ⟨x, hx, he⟩
+    obtain ⟨c, hc, rfl⟩ := List.mem_map.mp hx
+    exact ⟨c, (tables_perm h).mem_iff.mp hc, by simpa using he⟩
+  · rintro ⟨c, hc, rfl⟩
+    exact ⟨c.val, List.mem_map_of_mem ((tables_perm h).mem_iff.mpr hc), by simp⟩
+
+theorem C12_isenum (i : Input) (h : WF i = true) (hb : 0 < i.kind.bits) (v : Int) (hv : i.kind.has v = true) :
+    isEnum i.kind (valuesT (tables i)) v = specIsEnum i.decl v := by
+  rw [Bool.eq_iff_iff, C12_isenum_iff i h hb v hv]
+  simp [specIsEnum]
+
+/-- every encoder puts the String() text on the wire: the trimmed name for a declared constant -/
+theorem C12_encode (i : Input) (h : WF i = true) (x : Int) :
+    encode i.T (tables i) x = specString i.T i.decl x := C04_string i h x
+
+/-- decode(encode(c)) = c for every declared constant, for the three codecs, whatever the target held -/
+theorem C12_codec_roundtrip (i : Input) (h : WF i = true) (c : Const) (hc : c ∈ i.decl) (target : Int) :
+    unmarshalJSON (vmOf i) (.str (encode i.T (tables i) c.val).text) target = (none, c.val) ∧
+    unmarshalText (vmOf i) (encode i.T (tables i) c.val).text target = (none, c.val) ∧
+    scan (vmOf i) (.bytes (encode i.T (tables i) c.val).text) target = (none, c.val) := by
+  have he : (encode i.T (tables i) c.val).text = trim i.T c.name := by
+    unfold encode; rw [C04_string_declared i h c hc]; rfl
+  have hp : parseEnum (vmOf i) (trim i.T c.name) = some c.val :=
+    ((C12_parse_iff i h (trim i.T c.name) c.val).2).mpr ⟨c, hc, rfl, rfl⟩
+  simp [unmarshalJSON, unmarshalText, scan, parseInto, he, hp]
+
+/-- every string that is not a declared (trimmed) name is rejected by the three decoders, with an
+    error, and the target keeps its value -/
+theorem C12_reject (i : Input) (h : WF i = true) (s : Name) (hs : ∀ c ∈ i.decl, trim i.T c.name ≠ s) (target : Int) :
+    unmarshalJSON (vmOf i) (.str s) target = (some .notFound, target) ∧
+    unmarshalText (vmOf i) s target = (some .notFound, target) ∧
+    scan (vmOf i) (.bytes s) target = (some .notFound, target) ∧
+    parseEnum (vmOf i) s = none := by
+  have hp : parseEnum (vmOf i) s = none := parse_none_of_not_name i h s hs
+  simp [unmarshalJSON, unmarshalText, scan, parseInto, hp]
+
+/-- non-string JSON (numbers, booleans, arrays, objects, null) and non-[]byte SQL values are rejected
+    and leave the target unchanged -/
+theorem C12_reject_nonstring (i : Input) (h : WF i = true) (target : Int) :
+    unmarshalJSON (vmOf i) .other target = (some .notString, target) ∧
+    unmarshalJSON (vmOf i) .null target = (some .notFound, target) ∧
+    scan (vmOf i) .other target = (some .badType, target) := by
+  have hp : parseEnum (vmOf i) [] = none :=
+    parse_none_of_not_name i h [] (fun c hc => (WF.facts h).named c hc)
+  simp [unmarshalJSON, scan, parseInto, hp]
+
+/-- the three decoders, on every input, are the specification: a declared name yields its constant,
+    anything else an error and an untouched target -/
+theorem C12_decode_spec (i : Input) (h : WF i = true) (target : Int) :
+    (∀ d : JsonIn, (unmarshalJSON (vmOf i) d target).obs = specDecode i.T i.decl d.asName target) ∧
+    (∀ s : Name, (unmarshalText (vmOf i) s target).obs = specDecode i.T i.decl (some s) target) ∧
+    (∀ d : SqlIn, (scan (vmOf i) d target).obs = specDecode i.T i.decl d.asName target) := by
+  have hinto : ∀ s : Name, (parseInto (vmOf i) s target).obs = specDecode i.T i.decl (some s) target := by
+    intro s
+    unfold parseInto specDecode
+    rw [C12_parse i h s]
+    simp only [specParse, Option.bind_some]
+    cases specValueOf i.T i.decl s <;> rfl
+  have hnull := (C12_reject_nonstring i h target).2.1
+  refine ⟨?_, hinto, ?_⟩
+  · intro d
+    cases d with
+    | str s => exact hinto s
+    | null => rw [hnull]; rfl
+    | other => rfl
+  · intro d
+    cases d with
+    | bytes s => exact hinto s
+    | other => rfl
+
+/-! ### finding regions -/
+
+/-- `type E uint8; const EA E = 44`: IsEnum[E, int64](300) is true, 300 is not a declared value -/
+def truncWitness : Input :=
+  { T := ['E'], kind := ⟨false, 8, false⟩,
+    blocks := [[{ names := [['E', 'A']], ty := some ['E'], hasVals := true, exprTy := none, vals := [44] }]] }
+
+theorem C12_F_isenum_trunc_witness :
+    WF truncWitness = true ∧ F_isenum_trunc truncWitness.kind truncWitness.decl [300] = true ∧
+    isEnum truncWitness.kind (valuesT (tables truncWitness)) 300 = true ∧ specIsEnum truncWitness.decl 300 = false := by
+  decide
+
+/-- `type Color int` (the kind is `int` itself): not in the type set of constraints.Integer -/
+def intWitness : Input :=
+  { T := ['C'], kind := ⟨true, 64, true⟩,
+    blocks := [[{ names := [['C', 'A']], ty := some ['C'], hasVals := true, exprTy := none, vals := [1] }]] }
+
+theorem C12_F_int_constraint_witness :
+    F_int_constraint intWitness = true ∧ intWitness.kind.inConstraint = false := by decide
+
+/-! ### non-vacuity -/
+
+example : WF truncWitness = true ∧ truncWitness.kind.has 44 = true ∧ 0 < truncWitness.kind.bits ∧
+    unmarshalJSON (vmOf truncWitness) (.str ['A']) 7 = (none, 44) ∧
+    unmarshalJSON (vmOf truncWitness) (.str ['a']) 7 = (some .notFound, 7) ∧
+    isEnum truncWitness.kind (valuesT (tables truncWitness)) 44 = true := by decide
+
 end ShootVerif.Enum
